@@ -191,10 +191,18 @@ def detect_closure_renames(j, table):
             if not table[m]["callees"] and not fingerprint(present[f], ch)["callees"]:
                 sc = 0.6
             best.append((sc, f, "closure"))
+        par_body = None
+        for bj in j["bodies"]:
+            if bj["path"] == par:
+                par_body = bj
+        par_text = json.dumps(par_body["blocks"]) if par_body is not None else ""
         for f in fresh_fn:
             if f in conv:
                 continue
             sc = _callee_score(table[m], fingerprint(present[f], ch))
+            # the closure's parent now mentions the function as a value (`Lazy::new(named_fn)`): that is the closure
+            if par_text and ('"fn": %s' % json.dumps(f)) in par_text:
+                sc = max(sc, 0.9)
             if sc >= 0.75:
                 best.append((sc, f, "fn"))
         best.sort(reverse=True)
